@@ -836,7 +836,7 @@ fn producer_points(kind: Kind, load: &Load) -> Vec<&'static str> {
 fn main() {
     let a = parse_args();
     let mut res = RunResult::new("C06", &a);
-    res.rule = "case = (stream kind, load, schedule prefix over {producer, subscribers}); the schedule is forced on the real router through the rip_verif points (publish/record in the emitters, subscribe/snapshot in the handlers); enumeration: every producer position a (number of producer steps before the subscriber subscribes) x gap d in {0,1,2,3,5,8,13} producer steps between subscribe and snapshot, for each load of each of the three stream kinds, plus seeded random multi-subscriber interleavings; non-trivial = the subscriber attaches strictly inside the run (after the first and before the last producer step)".into();
+    res.rule = "case = (stream kind, load, number of subscribers, schedule prefix over {0 = producer, i = subscriber i, 9 = producer of ANOTHER thread on the shared continuity channel}); the schedule is forced on the real axum router through the rip_verif points (record/publish in the emitters and continuity appends incl. the file-system steps of log and sidecar, subscribe/snapshot in the handlers); enumeration per load: every pair (a, b) of relevant producer positions with a <= b (b at most 4 positions after a in quick, 7 in thorough, or the end of the run): the subscriber subscribes after a producer steps and snapshots after b; plus position 0 (before the stream starts) and after the run ended; plus seeded random interleavings of 2-4 concurrent subscribers; thread kind in addition: a foreign producer (POST /threads/{id}/branch) before the attach / between subscribe and snapshot / randomly interleaved; corpus first (S8 witnesses, the 18007-frame lag witness); non-trivial = the subscriber attaches strictly inside the run (after the first and before the last producer record/publish step)".into();
     let verif_root = std::env::current_exe().ok().and_then(|p| p.ancestors().nth(4).map(|x| x.to_path_buf())).unwrap_or_else(|| PathBuf::from("/verif"));
     let mut cases: Vec<Case> = vec![];
     if let Some(rp) = &a.replay {
@@ -1044,7 +1044,7 @@ fn main() {
                 res.bump("not_compared_with_model(events incomplete)");
             }
         }
-        if res.samples.len() < 3 && attached_inside {
+        if res.samples.len() < 3 && attached_inside && o.truth.len() <= 40 {
             res.samples.push(json!({"case": case_json(c), "events": format!("{:?}", o.events), "delivered": o.delivered.iter().map(|d| d.1.clone()).collect::<Vec<_>>(), "frames": o.truth.len()}));
         }
     }
